@@ -405,7 +405,8 @@ func (runInfo *runInfoStruct) makeCallArgs(rt reflect.Type, isRunVMFunction bool
 	if (!rt.IsVariadic() && !callExpr.VarArg && numIn != numExprs) ||
 		(rt.IsVariadic() && callExpr.VarArg && (numIn < numExprs || numIn > numExprs+1)) ||
 		(rt.IsVariadic() && !callExpr.VarArg && numIn > numExprs+1) ||
-		(!rt.IsVariadic() && callExpr.VarArg && numIn < numExprs) {
+		(!rt.IsVariadic() && callExpr.VarArg && numIn < numExprs) ||
+		(callExpr.VarArg && numExprs < 1) {
 		runInfo.err = newStringError(callExpr, fmt.Sprintf("function wants %v arguments but received %v", numIn, numExprs))
 		runInfo.rv = nilValue
 		return nil, false
